@@ -456,6 +456,43 @@ func c19(p *Prog, r *Report) {
 			dec = append(dec, decCase{cls: cls, guardN: g, val: rp.Vals[0], n: n})
 		}
 	}
+	// a decoder that is not a switch over b[0]>>6 with one return per class
+	// (for example: n := 1 << (b[0]>>6); one guard; a loop or big-endian reads):
+	// decide the same clauses by partitioning on the class and the available length
+	classes := map[int]bool{}
+	for _, d := range dec {
+		classes[d.cls] = true
+	}
+	if !(classes[0] && classes[1] && classes[2] && classes[3]) && len(encBytes) == 4 {
+		var eb [4][]bits
+		okEnc := true
+		for i := 0; i < 4; i++ {
+			width := 8*sizes[i] - 2
+			ee := &bitEval{env: map[ssa.Value]bits{app.Params[1]: bitsInput(width)}, memo: map[ssa.Value]bits{}}
+			for _, bv := range encBytes[i] {
+				if bv.v == nil {
+					okEnc = false
+					break
+				}
+				full := ee.of(bv.v)
+				var one bits
+				for j := 0; j < 8; j++ {
+					if bv.shr+j < 64 {
+						one[j] = full[bv.shr+j]
+					}
+				}
+				eb[i] = append(eb[i], one)
+			}
+			if ee.err != "" || len(eb[i]) != sizes[i] {
+				okEnc = false
+			}
+		}
+		if okEnc {
+			r.Note("ConsumeVarint is not a per-class switch: decided by abstract interpretation partitioned on the class b[0]>>6 and the available length")
+			c19Partitioned(p, r, R2, R3, con, eb)
+			goto afterDecoder
+		}
+	}
 	// ---- R2: identity per class
 	for i := 0; i < 4; i++ {
 		key := fmt.Sprintf("class %d (%d bytes)", i, sizes[i])
@@ -627,6 +664,7 @@ func c19(p *Prog, r *Report) {
 		r.Check(okF && nFail >= 4, R3, "failure exactly when fewer bytes than announced are available", p.Pos(con.Pos()), fmt.Sprintf("%d failure returns, each on len(b) < n of its class (or empty input)", nFail), detail)
 	}
 
+afterDecoder:
 	// ---- R4: bounds (range prover) for all quicwire functions, all configurations
 	for _, name := range []string{"~/quicwire.ConsumeVarint", "~/quicwire.ConsumeUint8Bytes", "~/quicwire.ConsumeVarintBytes", "~/quicwire.ConsumeUint32", "~/quicwire.ConsumeUint64", "~/quicwire.ConsumeVarintInt64"} {
 		fn := anchor(p, r, R4, name)
